@@ -127,6 +127,18 @@ theorem C05_nothing_after_shutdown (u : Bytes → Option Url) (c : Conn) (ops : 
             cases e <;> simp [writeContinue, h] <;> cases l <;> simp [h] <;> (try split) <;> simp [h]
       | readBodyToFile m fs =>
         simp only [step]
+        have hstore : ∀ (c0 : Conn) (got : Bytes) (bad : Option HttpError),
+            (storeUpload c0 fs got bad).1.wire = c0.wire ∧ (storeUpload c0 fs got bad).1.ws = c0.ws := by
+          intro c0 got bad
+          unfold storeUpload
+          split
+          · exact ⟨rfl, rfl⟩
+          · simp only [newFile, dropFile]
+            split
+            · exact ⟨rfl, rfl⟩
+            · cases bad <;> exact ⟨rfl, rfl⟩
+        have hwc : (writeContinue c).1 = c ∧ (writeContinue c).2 = .error .disconnected := by
+          simp [writeContinue, h]
         unfold readBodyToFile
         cases hrs : c.rs with
         | head => simp [h]
@@ -138,13 +150,23 @@ theorem C05_nothing_after_shutdown (u : Bytes → Option Url) (c : Conn) (ops : 
           · simp only [hc, Bool.false_eq_true, if_false]
             cases l with
             | none =>
-              cases e <;> simp [writeContinue, h, newFile, dropFile] <;> repeat (first | split | simp [h, dropFile])
+              cases e
+              · simp only [Bool.false_eq_true, if_false]
+                have := hstore { c with rs := .shutdown, input := c.input.drop (min (m + 1) (2 ^ 64 - 1)) }
+                  (c.input.take (min (m + 1) (2 ^ 64 - 1))) (if m < (c.input.take (min (m + 1) (2 ^ 64 - 1))).length then some .bodyTooLong else none)
+                exact ⟨this.1, this.2.trans h⟩
+              · simp [hwc.1, hwc.2, h]
             | some n =>
               simp only
               by_cases hn : n > m
               · simp [hn, h]
               · simp only [hn, if_false]
-                cases e <;> simp [writeContinue, h, newFile, dropFile] <;> repeat (first | split | simp [h, dropFile])
+                cases e
+                · simp only [Bool.false_eq_true, if_false]
+                  have := hstore { c with rs := .head, input := c.input.drop n } (c.input.take n)
+                    (if (c.input.take n).length < n then some .truncated else none)
+                  exact ⟨this.1, this.2.trans h⟩
+                · simp [hwc.1, hwc.2, h]
       | writeContinue => simp [step, writeContinue, h]
       | writeResponse r => simp [step, writeResponse, h]
       | shutdownWrite => simp [step, shutdownWrite]
